@@ -418,8 +418,12 @@ def normalize(tree, modname):
     info = {"noise_removed": strip_noise(tree)}
     info["reshaped"] = canon_shapes(tree)
     if "functions" in ref:
-        info["constants_inlined"] = inline.inline_constants(tree, modname,
-                                                            ref)
+        info["constants_inlined"] = 0
+        for _ in range(4):      # constants defined in terms of constants
+            k = inline.inline_constants(tree, modname, ref)
+            info["constants_inlined"] += k
+            if not k:
+                break
         info["helpers_inlined"] = inline.inline_helpers(tree, modname, ref)
         # inlining may have produced `if not c: ... else: ...` again
         canon_shapes(tree)
